@@ -172,6 +172,11 @@ func (c *Ctx) Finish(verifDir string, seed int) int {
 			os.Remove(f)
 		}
 	}
+	if os.Getenv("MIDIVERIF_OBLS") != "" {
+		for _, o := range c.Obls {
+			fmt.Fprintf(os.Stderr, "OBL %s [%s] %s: %s\n", o.Rule, o.St, o.Key, o.Detail)
+		}
+	}
 	nviol, nknown, ndis := 0, 0, 0
 	usedKnown := map[int]bool{}
 	for _, o := range c.Obls {
